@@ -41,7 +41,7 @@ def render_line(cells, delimiter_kind):
         return ""
     if delimiter_kind.startswith("regex"):
         return REGEX_SEP.join(cells)
-    d = {"comma": ",", "semicolon": ";", "tab": "\t"}[delimiter_kind]
+    d = {"comma": ",", "semicolon": ";", "tab": "\t", "tab-literal": "\t"}[delimiter_kind]
     return d.join(quote_cell(c, d) for c in cells)
 
 
